@@ -59,6 +59,9 @@ BUILT = {
     "C15": ("generated directory trees and argument lists (Hypothesis) against a reference model of file selection; forked CLI validated against the real CLI",
             "Trees with look-alike suffixes, names with spaces/dots, directories named like sources, and argument lists mixing files, directories, repeats, missing paths and --use-gitignore; the multiset of verdict lines, the rejection messages and the exit status must match the model.",
             "No hidden entries/symlinks; gitignore patterns of three shapes that the harness evaluates itself.", "§4.15"),
+    "C16": ("differential testing over generated option sets: every option combination against the --no-colors baseline, inline content against the stored file; forked CLI with real-CLI samples",
+            "For generated conforming/violating files (define-related and Notice-only files over-sampled) the parsed verdict and diagnostic set must be identical under every drawn combination of colours, format, -o, -d/-dd, -R word and inline content; -R CheckDefine may only remove define-check diagnostics on #define lines.",
+            "Files that are fatal under the baseline are outside the property; permissive reading of '#define-value diagnostics'.", "§4.16"),
     "C17": ("metamorphic testing on generated programs: same-width replacement of comment / literal interiors with code-like text",
             "Comment and literal interiors of generated conforming and violating files are replaced by code-like text of the same width; diagnostics must be identical including columns and order.",
             "Replacement alphabet excludes delimiters, backslash, tab, newline and '??' as the property states.", "§4.17"),
